@@ -420,73 +420,22 @@ All of them keep `Inv`, the number of cells and all values.
 theorem C10_ring_join_different (h : Heap) (hi : Inv h) (r s : Nat) (rs ss : List Nat)
     (c1 : Cyc h (r :: rs)) (c2 : Cyc h (s :: ss)) (hd : ∀ x ∈ r :: rs, x ∉ s :: ss) :
     ∃ h', join h (some r) (some s) = .ok (h', some (rs.headD r)) ∧
-      Cyc h' (r :: ((s :: ss) ++ rs)) ∧ Inv h' ∧ h'.size = h.size ∧ h'.vals = h.vals := by
-  obtain ⟨cs, c, hsn⟩ := exists_snoc (s :: ss) (by simp)
-  have hr := c1.bound r (by simp)
-  have hs := c2.bound s (by simp)
-  have hnr : h.nx r = rs.headD r := by have := c1.lk; simp only [Lk, List.headD_cons] at this; exact this.1
-  have h1 : r ≠ s := fun e => hd r (by simp) (by simp [e])
-  have h2 : h.nx r ≠ s := by
-    rw [hnr]; intro e
-    have : rs.headD r ∈ r :: rs := by cases rs <;> simp
-    exact hd _ this (by rw [e]; simp)
-  have hpv : h.pv s = c := by
-    have := cyc_pv_head h hi cs c (hsn ▸ c2)
-    rw [← hsn] at this; simpa using this
-  obtain ⟨h', e, sz, v, i', hnx⟩ := join_nx h hi r s hr hs h1 h2
-  refine ⟨h', by rw [e, hnr], ?_, i', sz, v⟩
-  rw [hsn]
-  apply exchange_merge h h' r c rs cs sz ?_ c1 (hsn ▸ c2) (by rw [← hsn]; exact hd)
-  intro k; rw [hnx k, hpv]
+      Cyc h' (r :: ((s :: ss) ++ rs)) ∧ Inv h' ∧ h'.size = h.size ∧ h'.vals = h.vals :=
+  join_different h hi r s rs ss c1 c2 hd
 
 theorem C10_ring_join_same (h : Heap) (hi : Inv h) (r c s : Nat) (m rest : List Nat)
     (c1 : Cyc h (r :: ((m ++ [c]) ++ (s :: rest)))) :
     ∃ h', join h (some r) (some s) = .ok (h', some ((m ++ [c]).headD 0)) ∧
-      Cyc h' (r :: s :: rest) ∧ Cyc h' (m ++ [c]) ∧ Inv h' ∧ h'.size = h.size ∧ h'.vals = h.vals := by
-  have hr := c1.bound r (by simp)
-  have hs := c1.bound s (by simp)
-  have hc := c1.bound c (by simp)
-  have l := c1.lk
-  simp only [Lk, List.headD_cons] at l
-  obtain ⟨la, l⟩ := l
-  rw [lk_append, lk_append] at l
-  simp only [Lk, List.headD_cons, List.headD_nil, and_true] at l
-  have hnr : h.nx r = (m ++ [c]).headD 0 := by rw [la]; exact headD_snoc_append m c (s :: rest) r 0
-  have hnc : h.nx c = s := l.1.2
-  have hpv : h.pv s = c := by rw [← hnc]; exact hi.pn c hc
-  have nd := c1.nodup
-  rw [List.nodup_cons, List.nodup_append] at nd
-  have h1 : r ≠ s := fun e => nd.1 (by simp [e])
-  have h2 : h.nx r ≠ s := by
-    rw [hnr]; intro e
-    have : (m ++ [c]).headD 0 ∈ m ++ [c] := by cases m <;> simp
-    exact nd.2.2.2 _ this s (by simp) e
-  obtain ⟨h', e, sz, v, i', hnx⟩ := join_nx h hi r s hr hs h1 h2
-  have := exchange_split h h' r c m (s :: rest) sz (by intro k; rw [hnx k, hpv]) c1
-  exact ⟨h', by rw [e, hnr], this.1, this.2, i', sz, v⟩
+      Cyc h' (r :: s :: rest) ∧ Cyc h' (m ++ [c]) ∧ Inv h' ∧ h'.size = h.size ∧ h'.vals = h.vals :=
+  join_same h hi r c s m rest c1
 
 theorem C10_ring_pop (h : Heap) (hi : Inv h) (a r : Nat) (rest : List Nat) (c1 : Cyc h (a :: r :: rest)) :
     Cyc (pop h (some r)) [r] ∧ Cyc (pop h (some r)) (a :: rest) ∧ Inv (pop h (some r)) ∧
-      (pop h (some r)).size = h.size ∧ (pop h (some r)).vals = h.vals := by
-  have ha := c1.bound a (by simp)
-  have hr := c1.bound r (by simp)
-  have l := c1.lk
-  simp only [Lk, List.headD_cons] at l
-  have hpv : h.pv r = a := by rw [← l.1]; exact hi.pn a ha
-  have nd := c1.nodup
-  rw [List.nodup_cons] at nd
-  have har : a ≠ r := fun e => nd.1 (by simp [e])
-  have hc : h.pv r ≠ r := by rw [hpv]; exact har
-  obtain ⟨i', sz, v, _, _⟩ := pop_inv h hi r hr
-  have := exchange_split h (pop h (some r)) a r [] rest sz
-    (by intro k; rw [pop_nx h hi r hr hc k, hpv]) (by simpa using c1)
-  exact ⟨by simpa using this.2, this.1, i', sz, v⟩
+      (pop h (some r)).size = h.size ∧ (pop h (some r)).vals = h.vals :=
+  pop_cyc h hi a r rest c1
 
-theorem C10_ring_pop_singleton (h : Heap) (hi : Inv h) (r : Nat) (c1 : Cyc h [r]) : pop h (some r) = h := by
-  have l := c1.lk
-  simp only [Lk, List.headD_cons, List.headD_nil, and_true] at l
-  have : h.pv r = r := by have := hi.pn r (c1.bound r (by simp)); rw [l] at this; exact this
-  simp [pop, this]
+theorem C10_ring_pop_singleton (h : Heap) (hi : Inv h) (r : Nat) (c1 : Cyc h [r]) : pop h (some r) = h :=
+  pop_singleton h hi r c1
 
 /-- **`Of vs` has cycle `vs`**: on any well-formed heap, `Of(v, vs...)` returns an element `r` whose cycle,
 read by `next` from `r`, carries exactly `v :: vs`, and the heap stays well formed.  (`Of()` and
@@ -653,22 +602,8 @@ theorem C10_ring_never_hangs (ops : List Op) : Out.hang ∉ run {} ops := by
 theorem C10_ring_pop_any (h : Heap) (hi : Inv h) (r : Nat) (hr : r < h.size) :
     ∃ l, Cyc h (r :: l) ∧ (l = [] → pop h (some r) = h) ∧
       (l ≠ [] → Cyc (pop h (some r)) [r] ∧ Cyc (pop h (some r)) l) ∧
-      Inv (pop h (some r)) ∧ (pop h (some r)).size = h.size ∧ (pop h (some r)).vals = h.vals := by
-  obtain ⟨l, c⟩ := cyc_exists h hi r hr
-  obtain ⟨i', sz, v, _, _⟩ := pop_inv h hi r hr
-  refine ⟨l, c, fun e => C10_ring_pop_singleton h hi r (e ▸ c), fun hne => ?_, i', sz, v⟩
-  obtain ⟨m, a, e⟩ := exists_snoc l hne
-  subst e
-  -- read the cycle from `a = r.prev`: `a :: r :: m`
-  have c' : Cyc h (a :: r :: m) := by
-    have := cyc_rotate h (r :: m) [a] (by simp) (by simp) (by simpa using c)
-    simpa using this
-  obtain ⟨p1, p2, _⟩ := C10_ring_pop h hi a r m c'
-  refine ⟨p1, ?_⟩
-  by_cases hm : m = []
-  · subst hm; simpa using p2
-  · have := cyc_rotate (pop h (some r)) [a] m (by simp) hm (by simpa using p2)
-    exact this
+      Inv (pop h (some r)) ∧ (pop h (some r)).size = h.size ∧ (pop h (some r)).vals = h.vals :=
+  pop_any h hi r hr
 
 /-- **`Join` without a hypothesis on cycles**: for any two cells `r`, `s` of a well-formed heap, with
 `r :: l` the cycle of `r`: (1) `s = r` or `s = r.Next()`: nothing happens, nil is returned;
@@ -684,34 +619,8 @@ theorem C10_ring_join_any (h : Heap) (hi : Inv h) (r s : Nat) (hr : r < h.size) 
           Inv h' ∧ h'.size = h.size ∧ h'.vals = h.vals) ∧
       (s ∉ r :: l → ∃ l' h', Cyc h (s :: l') ∧ join h (some r) (some s) = .ok (h', some (l.headD r)) ∧
           Cyc h' (r :: ((s :: l') ++ l)) ∧ Inv h' ∧ h'.size = h.size ∧ h'.vals = h.vals) ∧
-      (s = r ∨ s ∈ l ∨ s ∉ r :: l) := by
-  obtain ⟨l, c⟩ := cyc_exists h hi r hr
-  have hnr : h.nx r = l.headD r := by have := c.lk; simp only [Lk, List.headD_cons] at this; exact this.1
-  refine ⟨l, c, ?_, ?_, ?_, ?_⟩
-  · intro hc
-    have : (r = s || h.nx r = s) = true := by
-      rcases hc with e | e
-      · simp [e]
-      · cases l with
-        | nil => simp at e
-        | cons q l => simp at e; simp [hnr, e]
-    simp [join, this]
-  · intro m rest e hm
-    obtain ⟨m', cc, e'⟩ := exists_snoc m hm
-    subst e' e
-    obtain ⟨h', j, c1, c2, i', sz, v⟩ := C10_ring_join_same h hi r cc s m' rest (by simpa using c)
-    refine ⟨h', ?_, c1, c2, i', sz, v⟩
-    rw [j]; cases m' <;> simp
-  · intro hns
-    obtain ⟨l', c2⟩ := cyc_exists h hi s hs
-    have hd := cyc_disjoint_of_not_mem h _ _ c c2 s (by simp) hns
-    obtain ⟨h', j, c3, i', sz, v⟩ := C10_ring_join_different h hi r s l l' c c2 hd
-    exact ⟨l', h', c2, j, c3, i', sz, v⟩
-  · by_cases e : s = r
-    · exact Or.inl e
-    · by_cases hm : s ∈ l
-      · exact Or.inr (Or.inl hm)
-      · exact Or.inr (Or.inr (by simp [e, hm]))
+      (s = r ∨ s ∈ l ∨ s ∉ r :: l) :=
+  join_any h hi r s hr hs
 
 /-- non-vacuity of cycle existence on a reached heap: after `Of 1 2 3 4 5`, `Join` (splice out `[2 3]`)
 and `Pop`, every cell is on a cycle and `Len` reads it (register 2 holds the spliced-out ring) -/
